@@ -1,5 +1,5 @@
 From Coq Require Import List NArith Bool Lia.
-From YV Require Import Pat.Blocks.
+From YV Require Import Gen.ScanState Pat.Blocks.
 Import ListNotations.
 Local Open Scope N_scope.
 
@@ -26,8 +26,8 @@ Proof.
                        |destruct H as [H|H]; [left; symmetry; exact H|right; exact H]].
     + destruct (m_start m =? m_start y) eqn:E; cbn.
       * apply N.eqb_eq in E.
-        assert (S : m_start (keep y m) = m_start y) by (destruct (K y m) as [X|X]; rewrite X; congruence).
-        rewrite S. split; intros H.
+        assert (Sk : m_start (keep y m) = m_start y) by (destruct (K y m) as [X|X]; rewrite X; congruence).
+        rewrite Sk. split; intros H.
         -- destruct H as [H|H]; [right; left; exact H|right; right; exact H].
         -- destruct H as [H|[H|H]]; [left; congruence|left; exact H|right; exact H].
       * rewrite IH. tauto.
@@ -111,10 +111,45 @@ Theorem blocks_union_exact : forall keep scan_one blocks, selects keep ->
 Proof.
   intros keep scan_one blocks K U x H.
   destruct (blocks_union keep scan_one blocks K) as [A B].
-  assert (S : In (m_start x) (starts (scan_blocks keep scan_one blocks))).
+  assert (Sx : In (m_start x) (starts (scan_blocks keep scan_one blocks))).
   { apply B. unfold starts. apply in_map. exact H. }
-  unfold starts in S. apply in_map_iff in S. destruct S as (y & E & Hy).
+  unfold starts in Sx. apply in_map_iff in Sx. destruct Sx as (y & E & Hy).
   assert (y = x) by (apply U; [apply A; exact Hy|exact H|exact E]). subst y. exact Hy.
+Qed.
+
+(* a pattern anchored at absolute offset n only matches at n, inside a block
+   that contains [n, n + len) (GENERATED: the block is skipped when its base
+   is past the anchor) *)
+Theorem anchored_only_at_offset : forall file n lit b m,
+  In m (anchored_block file n lit b) ->
+  m_start m = n /\ fst b <= n /\ n + N.of_nat (length lit) <= fst b + snd b.
+Proof.
+  intros file n lit b m H. unfold anchored_block, anchored_rel in H.
+  change anchored_skips_block_past_offset with true in H. cbv iota in H.
+  destruct (fst b <=? n) eqn:L; [|contradiction].
+  apply N.leb_le in L.
+  destruct ((n - fst b + N.of_nat (length lit) <=? snd b) &&
+            bytes_eqb (slice file (fst b + (n - fst b)) (fst b + (n - fst b) + N.of_nat (length lit))) lit) eqn:C; [|contradiction].
+  destruct H as [H|[]]. subst m. apply andb_true_iff in C. destruct C as [C _]. apply N.leb_le in C.
+  unfold m_start. cbn. repeat split; lia.
+Qed.
+
+Theorem anchored_scan_only_at_offset : forall keep file n lit blocks m, selects keep ->
+  In m (anchored_scan keep file n lit blocks) ->
+  m_start m = n /\ exists b, In b blocks /\ fst b <= n /\ n + N.of_nat (length lit) <= fst b + snd b.
+Proof.
+  intros keep file n lit blocks m K. unfold anchored_scan.
+  assert (G : forall acc, (forall x, In x acc -> m_start x = n /\ exists b, In b blocks /\ fst b <= n /\ n + N.of_nat (length lit) <= fst b + snd b) ->
+              forall bl, incl bl blocks ->
+              In m (fold_left (fun acc b => add_all keep (anchored_block file n lit b) acc) bl acc) ->
+              m_start m = n /\ exists b, In b blocks /\ fst b <= n /\ n + N.of_nat (length lit) <= fst b + snd b).
+  { intros acc Hacc bl. revert acc Hacc. induction bl as [|b r IH]; intros acc Hacc I H; cbn in H.
+    - apply Hacc, H.
+    - apply (IH (add_all keep (anchored_block file n lit b) acc)); [|intros x Hx; apply I; right; exact Hx|exact H].
+      intros x Hx. destruct (add_all_in _ _ _ _ K Hx) as [A|A]; [|apply Hacc, A].
+      destruct (anchored_only_at_offset _ _ _ _ _ A) as (E0 & L1 & L2). split; [exact E0|].
+      exists b. split; [apply I; left; reflexivity|split; assumption]. }
+  intros H. apply (G [] (fun x F => match F with end) blocks (incl_refl _) H).
 Qed.
 
 Example blocks_example :
